@@ -12,6 +12,8 @@ INVARIANT TypeOK
 INVARIANT ClassesAreContents
 INVARIANT LastIsOwn
 INVARIANT DataMatchesModel
+INVARIANT CacheStateIrrelevant
+PROPERTY CacheOpsArePure
 PROPERTY CopyKeepsContent
 PROPERTY ThreadsKeepContent
 PROPERTY CopyModelSameClass
